@@ -19,7 +19,7 @@ from .copy import copy_modified_time
 from .enums import ResourceType, Seek
 from .info import Info
 from .mode import Mode
-from .path import isbase, iteratepath, normpath, split
+from .path import isbase, iteratepath, join, normpath, split
 
 if typing.TYPE_CHECKING:
     from typing import (
@@ -461,6 +461,13 @@ class MemoryFS(FS):
                 raise errors.ResourceNotFound(dst_path)
             elif not overwrite and dst_name in dst_dir_entry:
                 raise errors.DestinationExists(dst_path)
+
+            # a file can't replace a directory (nor the root, which has no name)
+            dst_entry = self._get_dir_entry(join(dst_dir, dst_name))
+            if dst_entry is not None and dst_entry.is_dir:
+                if not overwrite:
+                    raise errors.DestinationExists(dst_path)
+                raise errors.FileExpected(dst_path)
 
             # handle moving a file onto itself
             if src_dir == dst_dir and src_name == dst_name:
